@@ -38,6 +38,15 @@ def r_py_opts(rep, f):
         kv = k.get("v") if k.get("k") == "Lit" else None
         for a in tast.find(i_["then"], lambda z: z.get("k") == "Assign" and z["l"].get("k") == "Path"):
             prov.setdefault(a["l"]["id"], set()).add(kv)
+    # ... or directly from a lookup expression naming the key (`x = helper(opts, "key")`, `opts.get_item("key")...`)
+    is_key = lambda q: q.get("k") == "Lit" and q.get("lk") == "Str"
+    for a in tast.find(po["body"], lambda z: z.get("k") == "Assign" and z["l"].get("k") == "Path" and tast.contains(z["r"], is_key)):
+        for q in tast.find(a["r"], is_key):
+            prov.setdefault(a["l"]["id"], set()).add(q.get("v"))
+    for l_ in tast.find(po["body"], lambda z: z.get("k") == "Let" and z["pat"].get("k") == "PBind" and z.get("init") is not None and tast.contains(z["init"], is_key)
+                        and not tast.contains(z["init"], lambda q: q.get("k") in ("If", "Match", "Block"))):
+        for q in tast.find(l_["init"], is_key):
+            prov.setdefault(l_["pat"]["id"], set()).add(q.get("v"))
     # (2) the returned tuple
     rets = tast.find(po["body"], lambda z: z.get("k") == "Tuple" and len(z["elems"]) >= 4 and all(e.get("k") == "Path" for e in z["elems"]))
     if len(rets) != 1:
@@ -126,9 +135,21 @@ def r_py_status(rep, f):
     # success = status >= 0
     lit = [s for s in tast.find(br["body"], lambda z: z.get("k") == "Struct" and "PyOdeResult" in (z.get("def") or ""))]
     if len(lit) == 1:
-        fl = {x["name"]: x["e"] for x in lit[0]["fields"]}
+        def through_lets(e, depth=0):
+            """a field initialiser given as a single-assignment local stands for that local's initialiser"""
+            while e is not None and e.get("k") == "Path" and e.get("res") == "local" and depth < 4:
+                lets = tast.find(br["body"], lambda z: z.get("k") == "Let" and z["pat"].get("id") == e.get("id") and z.get("init") is not None)
+                asg = tast.find(br["body"], lambda z: z.get("k") in ("Assign", "AssignOp") and z["l"].get("k") == "Path" and z["l"].get("id") == e.get("id"))
+                if len(lets) != 1 or asg:
+                    break
+                e = lets[0]["init"]
+                depth += 1
+            return e
+        fl = {x["name"]: through_lets(x["e"]) for x in lit[0]["fields"]}
         e = fl.get("success")
-        ok = e is not None and e.get("k") == "Binary" and e["op"] == "Ge" and e["r"].get("k") == "Lit" and str(e["r"].get("v")) == "0"
+        ok = e is not None and e.get("k") == "Binary" and ((e["op"] == "Ge" and e["r"].get("k") == "Lit" and str(e["r"].get("v")) == "0")
+                                                              or (e["op"] == "Le" and e["l"].get("k") == "Lit" and str(e["l"].get("v")) == "0")
+                                                              or (e["op"] == "Gt" and e["r"].get("k") == "Unary" and tast.render(e["r"]).replace(" ", "") in ("-1", "(-1)")))
         (rep.ok(key0, key0 + ":success", "success = status >= 0") if ok else rep.violation(key0, key0 + ":success", "success is %s, not status >= 0" % tast.render(e), (e or lit[0]).get("sp")))
         # statistics copied by name
         for nm in ("nfev", "nlu"):
@@ -142,70 +163,268 @@ def r_py_status(rep, f):
         rep.inconc(key0, key0 + ":literal", "PyOdeResult literal not found")
 
 
+class _LNo(Exception):
+    pass
+
+
+class LayoutEval:
+    """Finite model evaluation of the code that flattens a Vec<Vec<f64>> into a flat Vec and reshapes it: the source is
+    replaced by an R x C table of distinct symbols, the (loop / index / extend / push) statements between the allocation
+    of the flat vector and the `reshape((A, B))` are executed on that model, and element (a, b) of the reshaped array is
+    flat[a*B + b] (C order). Only shapes and positions are computed - no floating-point value is involved."""
+
+    def __init__(self, body, src_pred, R, C):
+        self.body, self.src_pred, self.R, self.C = body, src_pred, R, C
+        self.env = {}
+
+    def src(self):
+        return [[("s", r, c) for c in range(self.C)] for r in range(self.R)]
+
+    def ev(self, e, depth=0):
+        if e is None or depth > 40:
+            raise _LNo("depth")
+        if self.src_pred(e):
+            return self.src()
+        k = e.get("k")
+        if k in ("AddrOf", "Cast", "DropTemps"):
+            return self.ev(e["e"], depth + 1)
+        if k == "Unary" and e["op"] == "Deref":
+            return self.ev(e["e"], depth + 1)
+        if k == "Lit":
+            if e.get("lk") == "Int":
+                return int(e["v"])
+            if e.get("lk") == "Float":
+                return None
+            if e.get("lk") == "Bool":
+                return bool(e["v"])
+        if k == "Path" and e.get("res") == "local":
+            if e["id"] in self.env:
+                return self.env[e["id"]]
+            raise _LNo("local %s" % e.get("name"))
+        if k == "Binary":
+            l, r = self.ev(e["l"], depth + 1), self.ev(e["r"], depth + 1)
+            op = e["op"]
+            if isinstance(l, int) and isinstance(r, int):
+                t = {"Add": l + r, "Sub": l - r, "Mul": l * r, "Gt": l > r, "Ge": l >= r, "Lt": l < r, "Le": l <= r, "Eq": l == r, "Ne": l != r}
+                if op in t:
+                    return t[op]
+            raise _LNo("binary %s" % op)
+        if k == "If":
+            c = self.ev(e["cond"], depth + 1)
+            return self.ev(e["then"] if c else e.get("else"), depth + 1)
+        if k == "Block":
+            self.run_block(e)
+            t = e.get("tail") if e.get("tail") is not None else e.get("expr")
+            return self.ev(t, depth + 1) if t is not None else None
+        if k == "Index":
+            base, i = self.ev(e["e"], depth + 1), self.ev(e["i"], depth + 1)
+            if isinstance(base, list) and isinstance(i, int):
+                return base[i]
+            raise _LNo("index")
+        if k == "MethodCall":
+            nm = e.get("name")
+            if nm == "len" and not e["args"]:
+                v = self.ev(e["recv"], depth + 1)
+                if isinstance(v, list):
+                    return len(v)
+            if nm in ("iter", "into_iter", "clone", "to_vec", "as_slice", "copied", "cloned") and not e["args"]:
+                return self.ev(e["recv"], depth + 1)
+            if nm == "enumerate" and not e["args"]:
+                v = self.ev(e["recv"], depth + 1)
+                if isinstance(v, list):
+                    return [(i, x) for i, x in enumerate(v)]
+            if nm == "is_empty" and not e["args"]:
+                v = self.ev(e["recv"], depth + 1)
+                if isinstance(v, list):
+                    return len(v) == 0
+            raise _LNo("method %s" % nm)
+        if k == "Call":
+            d = e.get("def") or ""
+            if d.endswith("vec::from_elem") and len(e["args"]) == 2:
+                n = self.ev(e["args"][1], depth + 1)
+                if isinstance(n, int):
+                    return [None] * n
+            if d.endswith("::with_capacity") or d.endswith("Vec::<T>::new"):
+                return []
+            raise _LNo("call %s" % d[-30:])
+        if k == "Struct" and (e.get("def") or "").startswith("std::ops::Range"):
+            fl = {x["name"]: x["e"] for x in e["fields"]}
+            lo, hi = self.ev(fl["start"], depth + 1), self.ev(fl["end"], depth + 1)
+            return list(range(lo, hi + (1 if "Inclusive" in e["def"] else 0)))
+        if k == "Tuple":
+            return tuple(self.ev(x, depth + 1) for x in e["elems"])
+        raise _LNo("node %s" % k)
+
+    def bind(self, pat, v):
+        k = pat.get("k")
+        if k == "PBind":
+            self.env[pat["id"]] = v
+        elif k == "PTuple":
+            if not isinstance(v, tuple) or len(v) != len(pat["pats"]):
+                raise _LNo("tuple pattern")
+            for p_, x in zip(pat["pats"], v):
+                self.bind(p_, x)
+        elif k in ("PRef", "PDeref"):
+            self.bind(pat["pat"], v)
+        elif k != "PWild":
+            raise _LNo("pattern %s" % k)
+
+    def lv_list(self, e):
+        while e.get("k") in ("AddrOf", "Unary"):
+            e = e["e"]
+        if e.get("k") == "Path" and e.get("res") == "local" and isinstance(self.env.get(e["id"]), list):
+            return self.env[e["id"]]
+        raise _LNo("target")
+
+    def run_stmt(self, st):
+        k = st.get("k")
+        if k == "Let":
+            if st.get("init") is None:
+                return
+            try:
+                self.bind(st["pat"], self.ev(st["init"]))
+            except _LNo:
+                pass       # a binding this model does not need (python objects etc.); using it later is an error then
+            return
+        if k in ("ExprStmt", "Semi"):
+            return self.run_stmt(st["e"])
+        if k == "For":
+            it = self.ev(st["iter"])
+            if not isinstance(it, list):
+                raise _LNo("loop over a non-list")
+            for x in it:
+                self.bind(st["pat"], x)
+                self.run_block(st["body"])
+            return
+        if k == "Assign" and st["l"].get("k") == "Index":
+            tgt = self.lv_list(st["l"]["e"])
+            i = self.ev(st["l"]["i"])
+            if not isinstance(i, int) or not (0 <= i < len(tgt)):
+                raise _LNo("store index %r out of the allocated range" % (i,))
+            tgt[i] = self.ev(st["r"])
+            return
+        if k == "MethodCall" and st.get("name") in ("extend", "extend_from_slice", "push", "append"):
+            tgt = self.lv_list(st["recv"])
+            v = self.ev(st["args"][0])
+            if st["name"] == "push":
+                tgt.append(v)
+            elif isinstance(v, list):
+                tgt.extend(v)
+            else:
+                raise _LNo("extend with a non-list")
+            return
+        if k == "Block":
+            return self.run_block(st)
+        if k == "If":
+            c = self.ev(st["cond"])
+            br = st["then"] if c else st.get("else")
+            if br is not None:
+                self.run_stmt(br)
+            return
+        # anything else (building python objects, pushes into other lists) is irrelevant to the layout
+        return
+
+    def run_block(self, blk):
+        for st in blk.get("stmts", []):
+            self.run_stmt(st)
+        t = blk.get("tail")
+        if t is not None and t.get("k") in ("For", "If", "Block", "Assign", "MethodCall", "Match"):
+            self.run_stmt(t)
+
+
 def r_py_transpose(rep, f):
+    """array layout: y has shape (n_states, n_times) with y[state][time] = sol.y[time][state]; each y_events[k] has shape
+    (n_occurrences, n_states) with rows = occurrences. Decided by executing the flattening code on an R x C table of
+    symbols for (R, C) = (2, 3) and (3, 2) and reading the reshaped array back in C order."""
     br = f.bodies.get(PY + "build_result")
     key0 = "R-PY-TRANSPOSE"
     if br is None:
+        rep.inconc(key0, key0 + ":anchor", "build_result not found")
         return
-    stores = tast.find_with_parents(br["body"], lambda z: z.get("k") == "Assign" and z["l"].get("k") == "Index" and z["l"]["e"].get("k") == "Path")
-    cand = [(s, ps) for s, ps in stores if len([p for p in ps if p.get("k") == "For"]) == 2]
-    if len(cand) != 1:
-        rep.inconc(key0, key0 + ":store", "transposition store not found (%d candidates)" % len(cand))
-        return
-    s, ps = cand[0]
-    fors = [p for p in ps if p.get("k") == "For"]
-    outer, inner = fors[0], fors[1]
-
-    def enum_idx(fr):
-        # for (i, x) in it.enumerate()
-        if fr["pat"].get("k") == "PTuple" and fr["pat"]["pats"][0].get("k") == "PBind" and tast.contains(fr["iter"], lambda q: q.get("k") == "MethodCall" and q.get("name") == "enumerate"):
-            return fr["pat"]["pats"][0]["id"]
-        return None
-    oi, ii = enum_idx(outer), enum_idx(inner)
-    idx = s["l"]["i"]
-    # idx == J * N + I
-    ok_form = False
-    nvar = None
-    if idx.get("k") == "Binary" and idx["op"] == "Add":
-        for mul, add in ((idx["l"], idx["r"]), (idx["r"], idx["l"])):
-            if mul.get("k") == "Binary" and mul["op"] == "Mul" and add.get("k") == "Path":
-                fac = [mul["l"], mul["r"]]
-                ids = [x.get("id") for x in fac if x.get("k") == "Path"]
-                if add.get("id") == oi and ii in ids:
-                    nv = [x for x in fac if x.get("k") == "Path" and x.get("id") != ii]
-                    if nv:
-                        ok_form = True
-                        nvar = nv[0]
-    if not ok_form:
-        rep.violation(key0, key0 + ":index", "flat index is `%s`; for a (state, time) array it must be state_index * n_times + time_index" % tast.render(idx), idx.get("sp"))
-        return
-    # nvar is the length of the outer iterable
-    lets = tast.find(br["body"], lambda z: z.get("k") == "Let" and z["pat"].get("id") == nvar.get("id"))
-    outer_src = tast.render(outer["iter"]).split(".iter")[0]
-    len_ok = bool(lets) and lets[0].get("init") is not None and tast.render(lets[0]["init"]).startswith(outer_src + ".len")
-    # reshape((A, B)) with B == nvar
-    rs = [c for c in tast.find(br["body"], lambda z: z.get("k") == "MethodCall" and z.get("name") == "reshape") if tast.contains(c["recv"], lambda q: q.get("k") == "Path" and q.get("id") == s["l"]["e"].get("id"))]
-    shape_ok = False
-    if len(rs) == 1 and rs[0]["args"][0].get("k") == "Tuple" and len(rs[0]["args"][0]["elems"]) == 2:
-        a, b = rs[0]["args"][0]["elems"]
-        shape_ok = b.get("k") == "Path" and b.get("id") == nvar.get("id") and a.get("k") == "Path" and a.get("id") != nvar.get("id")
-    if len_ok and shape_ok:
-        rep.ok(key0, key0 + ":y", "y_flat[state*n_times + time] reshaped to (n_states, n_times)")
-    else:
-        rep.violation(key0, key0 + ":y", "the flat index `%s` does not agree with reshape(%s): y would not have shape (n, m) in SciPy layout"
-                      % (tast.render(idx), tast.render(rs[0]["args"][0]) if rs else "?"), s.get("sp"))
-    # y_events: flat.extend(state) per event, reshape((n_ev, n_st))
-    rs2 = [c for c in tast.find(br["body"], lambda z: z.get("k") == "MethodCall" and z.get("name") == "reshape") if c not in rs]
-    key = key0 + ":y_events"
-    if len(rs2) == 1 and rs2[0]["args"][0].get("k") == "Tuple":
-        a, b = rs2[0]["args"][0]["elems"]
-        la = tast.find(br["body"], lambda z: z.get("k") == "Let" and z["pat"].get("id") == a.get("id"))
-        lb = tast.find(br["body"], lambda z: z.get("k") == "Let" and z["pat"].get("id") == b.get("id"))
-        ok = bool(la and lb) and tast.render(la[0]["init"]).endswith(".len()") and "[0]" in tast.render(lb[0]["init"]) and "[0]" not in tast.render(la[0]["init"])
-        (rep.ok(key0, key, "events flattened event-major and reshaped to (n_events, n_states)") if ok else
-         rep.violation(key0, key, "y_events reshape(%s) does not match the event-major flattening" % tast.render(rs2[0]["args"][0]), rs2[0].get("sp")))
-    else:
-        rep.inconc(key0, key, "y_events reshape not found")
+    body = br["body"]
+    reshapes = tast.find_with_parents(body, lambda z: z.get("k") == "MethodCall" and z.get("name") == "reshape")
+    done = set()
+    for rs, parents in reshapes:
+        flat = tast.find(rs["recv"], lambda q: q.get("k") == "Path" and q.get("res") == "local" and "Vec<f64>" in (q.get("ty") or ""))
+        if len(flat) != 1:
+            continue
+        flat_id = flat[0]["id"]
+        # which solution field feeds this array?
+        fills = [n_ for n_ in tast.find(body, lambda z: z.get("k") == "For" and tast.contains(z["body"], lambda q: q.get("k") == "Path" and q.get("id") == flat_id))]
+        outer_fill = [l for l in fills if not any(l is not m and tast.contains(m["body"], lambda z: z is l) and tast.contains(m["body"], lambda q: q.get("k") == "Let" and q["pat"].get("id") == flat_id) is False and
+                                                  tast.contains(m, lambda q: q.get("k") == "Path" and q.get("id") == flat_id) and not tast.contains(m["body"], lambda q: q.get("k") == "Let" and q["pat"].get("id") == flat_id) for m in fills)]
+        if not outer_fill:
+            continue
+        loop = outer_fill[0]
+        is_y = tast.contains(loop, lambda q: q.get("k") == "Field" and (q.get("fdef") or "").endswith("Solution::y"))
+        src_node = None
+        kind = None
+        if is_y:
+            kind = "y"
+            src_pred = lambda e: e.get("k") == "Field" and (e.get("fdef") or "").endswith("Solution::y")
+        else:
+            # y_events: the source is the per-event table bound by an enclosing loop over Solution::y_events
+            enc = [p for p in parents if p.get("k") == "For" and tast.contains(p["iter"], lambda q: q.get("k") == "Field" and (q.get("fdef") or "").endswith("Solution::y_events"))]
+            if not enc or enc[-1]["pat"].get("k") != "PBind":
+                continue
+            kind = "y_events"
+            sid = enc[-1]["pat"]["id"]
+            src_pred = lambda e, sid=sid: e.get("k") == "Path" and e.get("res") == "local" and e.get("id") == sid
+        key = "%s:%s" % (key0, kind)
+        if key in done:
+            continue
+        done.add(key)
+        # the block holding the allocation of the flat vector
+        blk = next((p for p in reversed(parents) if p.get("k") == "Block" and tast.contains(p, lambda q: q.get("k") == "Let" and q["pat"].get("id") == flat_id)), None)
+        if blk is None:
+            rep.inconc(key0, key, "allocation of the flat buffer not found")
+            continue
+        probs = []
+        try:
+            for R, C in ((2, 3), (3, 2)):
+                le = LayoutEval(body, src_pred, R, C)
+                # statements of the function up to and including the block (lets computing the dimensions come first)
+                chain = [p for p in parents if p.get("k") == "Block"]
+                for outer_blk in chain:
+                    for st in outer_blk.get("stmts", []):
+                        if tast.contains(st, lambda z: z is rs):
+                            break
+                        if outer_blk is blk or st.get("k") == "Let":
+                            le.run_stmt(st)
+                    if outer_blk is blk:
+                        break
+                flat_v = le.env.get(flat_id)
+                shape = le.ev(rs["args"][0])
+                if not isinstance(flat_v, list) or not (isinstance(shape, tuple) and len(shape) == 2):
+                    raise _LNo("flat buffer / shape not evaluated")
+                A, B = shape
+                if A * B != len(flat_v) or any(x is None for x in flat_v):
+                    probs.append("source %dx%d: reshape((%d, %d)) of a buffer with %d filled entries" % (R, C, A, B, len([x for x in flat_v if x is not None])))
+                    continue
+                for a_ in range(A):
+                    for b_ in range(B):
+                        got = flat_v[a_ * B + b_]
+                        want = ("s", b_, a_) if kind == "y" else ("s", a_, b_)
+                        if (kind == "y" and (A, B) != (C, R)) or (kind == "y_events" and (A, B) != (R, C)):
+                            probs.append("source %dx%d is reshaped to (%d, %d)" % (R, C, A, B))
+                            break
+                        if got != want:
+                            probs.append("source %dx%d: element (%d, %d) of the result is source[%d][%d], expected source[%d][%d]" % (R, C, a_, b_, got[1], got[2], want[1], want[2]))
+                            break
+                    else:
+                        continue
+                    break
+        except _LNo as ex_:
+            rep.inconc(key0, key, "layout code not evaluated on the model (%s)" % ex_, rs.get("sp"))
+            continue
+        if probs:
+            what = "y must have shape (n_states, n_times) with y[i][k] = state i at time k" if kind == "y" else "y_events[j] must have shape (n_occurrences, n_states), one row per occurrence"
+            rep.violation(key0, key, "%s; %s" % (what, "; ".join(probs[:2])), rs.get("sp"))
+        else:
+            rep.ok(key0, key, "layout verified on 2x3 and 3x2 symbol tables: %s" % ("(n_states, n_times), transposed from the time-major samples" if kind == "y" else "(n_occurrences, n_states), row per occurrence"))
+    for kind in ("y", "y_events"):
+        if "%s:%s" % (key0, kind) not in done:
+            rep.inconc(key0, "%s:%s" % (key0, kind), "no flatten-and-reshape site found for %s" % kind)
 
 
 def r_py_args(rep, f):
@@ -277,6 +496,161 @@ def r_py_sol(rep, f):
         rep.inconc(key0, key0 + ":floor", "only %d evaluation call sites in PyOdeSolution" % n)
 
 
+def r_py_colour(rep, f):
+    """greedy column grouping (python::sparsity::group_columns): test-and-mark discipline that makes `no two columns of a
+    group share a row` an inductive invariant:
+    (1) a column is admitted to a group exactly when NONE of its rows is marked in that group's table (the admission
+        predicate is evaluated over all markings of two rows: finite table);
+    (2) whenever groups[col] is assigned, every row of the column is marked `true` in the table of that same group
+        (existing group) / in the table pushed for the new group - in a loop over all rows with no early exit."""
+    key0 = "R-PY-COLOUR"
+    fn = "python::sparsity::group_columns"
+    b = f.bodies.get(fn)
+    if b is None:
+        rep.inconc(key0, key0 + ":anchor", "%s not found" % fn)
+        return
+    rep.fn(fn)
+    body = b["body"]
+    # ---- (1) admission predicate
+    tests = tast.find(body, lambda z: z.get("k") == "MethodCall" and z.get("name") in ("all", "any") and z["args"] and z["args"][0].get("k") == "Closure")
+    if len(tests) != 1:
+        rep.inconc(key0, key0 + ":admission", "expected one all/any admission test, found %d" % len(tests))
+    else:
+        t = tests[0]
+        cl = t["args"][0]
+        pid = [q["id"] for q in tast.find(cl["params"], lambda q: q.get("k") == "PBind")]
+
+        free = {}
+
+        def ev(e, used):
+            k = e.get("k")
+            if k == "Binary" and e["op"] in ("And", "Or"):
+                l, r = ev(e["l"], used), ev(e["r"], used)
+                return (l and r) if e["op"] == "And" else (l or r)
+            if k == "Binary" and e["op"] in ("Eq", "Ne", "Lt", "Le", "Gt", "Ge") and not tast.contains(e, lambda q: q.get("k") == "Index" and "bool" in (q.get("ty") or "")):
+                # a comparison that does not look at the marking table: a free boolean (both values are tried)
+                return free.setdefault(tast.render(e), cur_free.get(tast.render(e), False))
+            if k == "Unary" and e["op"] == "Not":
+                return not ev(e["e"], used)
+            if k == "Unary" and e["op"] == "Deref":
+                return ev(e["e"], used)
+            if k == "Index" and e["i"].get("k") == "Path" and e["i"].get("id") in pid and "bool" in (e.get("ty") or ""):
+                return used
+            if k == "Block" and not e.get("stmts"):
+                return ev(e.get("tail") if e.get("tail") is not None else e.get("expr"), used)
+            if k == "Binary" and e["op"] in ("Eq", "Ne") and e["r"].get("k") == "Lit" and e["r"].get("lk") == "Bool":
+                l = ev(e["l"], used)
+                return (l == bool(e["r"]["v"])) if e["op"] == "Eq" else (l != bool(e["r"]["v"]))
+            raise ValueError(k)
+        # is the test negated at its use (`if !rows.iter().any(..)`)?
+        bad = None
+        cur_free = {}
+        try:
+            ev(cl["body"], False)       # discover the free comparisons
+            import itertools
+            names_free = sorted(free)
+            combos = list(itertools.product((False, True), repeat=len(names_free))) if len(names_free) <= 3 else [tuple(False for _ in names_free)]
+            for combo, u1, u2 in [(cb, a_, b_) for cb in combos for a_ in (False, True) for b_ in (False, True)]:
+                if True:
+                    cur_free = dict(zip(names_free, combo))
+                    free.clear()
+                    vals = [ev(cl["body"], u1), ev(cl["body"], u2)]
+                    res = all(vals) if t["name"] == "all" else any(vals)
+                    neg = False
+                    for n_, parents in tast.find_with_parents(body, lambda z: z is t):
+                        for a_ in reversed(parents):
+                            if a_.get("k") == "Unary" and a_.get("op") == "Not":
+                                neg = not neg
+                            elif a_.get("k") in ("Let", "If", "Block", "ExprStmt"):
+                                break
+                    if neg:
+                        res = not res
+                    want = (not u1) and (not u2)
+                    if res != want and bad is None:
+                        bad = "rows marked (%s, %s)%s: column %s" % (u1, u2, (" with " + ", ".join("%s = %s" % kv for kv in cur_free.items())) if cur_free else "",
+                                                                    "admitted although a row is taken" if res else "refused although all its rows are free")
+        except ValueError as ex_:
+            rep.inconc(key0, key0 + ":admission", "admission predicate not evaluated (%s)" % ex_)
+            bad = False
+        if bad:
+            rep.violation(key0, key0 + ":admission", "a column is not admitted exactly when none of its rows is already used in the group (%s): two columns sharing a row can land in one group and their finite-difference columns are mixed" % bad, t.get("sp"))
+        elif bad is None:
+            rep.ok(key0, key0 + ":admission", "admitted <=> no row of the column is marked in the group's table (4 markings of two rows)")
+    # ---- (2) marking on every assignment of groups[col]
+    out_ids = [l["pat"]["id"] for l in tast.find(body, lambda z: z.get("k") == "Let" and z["pat"].get("k") == "PBind" and "Vec<usize>" in (z["pat"].get("ty") or ""))]
+    assigns = tast.find_with_parents(body, lambda z: z.get("k") == "Assign" and z["l"].get("k") == "Index" and z["l"]["e"].get("k") == "Path" and z["l"]["e"].get("id") in out_ids)
+    if len(assigns) < 2:
+        rep.inconc(key0, key0 + ":marking", "expected the group assignment in the existing-group and the new-group branch, found %d" % len(assigns))
+        return
+    n_ok = 0
+    for asg, parents in assigns:
+        blk = next((p for p in reversed(parents) if p.get("k") == "Block"), None)
+        key = "%s:marking:%s" % (key0, "existing" if asg["r"].get("k") == "Path" and not tast.contains(blk, lambda z: z.get("k") == "MethodCall" and z.get("name") == "push") else "new")
+        loops = tast.find(blk, lambda z: z.get("k") == "For")
+        marks = []
+        for lp in loops:
+            for st in tast.find(lp["body"], lambda z: z.get("k") == "Assign" and z["r"].get("k") == "Lit" and z["r"].get("lk") == "Bool"):
+                marks.append((lp, st))
+        if not marks:
+            rep.violation(key0, key, "a column is assigned to a group (`%s`) without marking its rows as used in that group: a later column sharing a row is admitted to the same group" % tast.render(asg)[:60], asg.get("sp"))
+            continue
+        lp, st = marks[0]
+        probs = []
+        if not bool(st["r"]["v"]):
+            probs.append("rows are marked `false`")
+        row_ids = {q["id"] for q in tast.find(lp["pat"], lambda q: q.get("k") == "PBind")}
+        idx = st["l"]
+        if not (idx.get("k") == "Index" and tast.contains(idx["i"], lambda q: q.get("k") == "Path" and q.get("id") in row_ids)):
+            probs.append("the marked entry is not indexed by the row")
+        if tast.contains(lp["body"], lambda z: z.get("k") in ("Break", "Continue", "Return")) or tast.contains(lp["body"], lambda z: z.get("k") == "If"):
+            probs.append("not every row is marked (conditional / early exit in the marking loop)")
+        # the loop ranges over the rows of this column (same source as the admission test's receiver)
+        if tests and len(tests) == 1:
+            recv_ids = {q.get("id") for q in tast.find(tests[0]["recv"], lambda q: q.get("k") == "Path" and q.get("res") == "local")}
+            it_ids = {q.get("id") for q in tast.find(lp["iter"], lambda q: q.get("k") == "Path" and q.get("res") == "local")}
+            if recv_ids and not (recv_ids & it_ids):
+                probs.append("the marking loop does not range over the rows that were tested")
+        # existing group: table index is the assigned group value
+        if key.endswith("existing") and idx.get("k") == "Index" and idx["e"].get("k") == "Index":
+            gi = idx["e"]["i"]
+            if not (gi.get("k") == "Path" and asg["r"].get("k") == "Path" and gi.get("id") == asg["r"].get("id")):
+                probs.append("rows are marked in the table of a different group than the one assigned")
+        if probs:
+            rep.violation(key0, key, "; ".join(probs) + ": the `rows used in this group` table no longer describes the group, two columns sharing a row can be perturbed together", st.get("sp"))
+        else:
+            n_ok += 1
+            rep.ok(key0, key, "every row of the column is marked true in the assigned group's table")
+
+
+def r_py_jac_copy(rep, f):
+    """a Jacobian / mass matrix returned by Python is copied entry (r, c) -> j[(r, c)] in every dtype branch: the index
+    pair of the numpy `get([..])` equals the pair of the Matrix element assigned (sibling branches must agree)"""
+    key0 = "R-PY-JAC-COPY"
+    n = 0
+    for b in f.body_list:
+        if not b["def"].startswith(("python::ivp_wrapper::", "<python::ivp_wrapper::")):
+            continue
+        for asg in tast.find(b["body"], lambda z: z.get("k") == "Assign" and z["l"].get("k") == "Index" and "Matrix" in (z["l"].get("base_ty") or "")
+                             and z["l"]["i"].get("k") == "Tuple" and len(z["l"]["i"]["elems"]) == 2):
+            gets = tast.find(asg["r"], lambda q: q.get("k") == "MethodCall" and q.get("name") in ("get", "get_owned", "uget") and q["args"] and q["args"][0].get("k") in ("Array", "Tuple")
+                             and len(q["args"][0]["elems"]) == 2)
+            if not gets:
+                continue
+            n += 1
+            rep.fn(b["def"])
+            lhs = [x.get("id") for x in asg["l"]["i"]["elems"]]
+            rhs = [x.get("id") for x in gets[0]["args"][0]["elems"]]
+            key = "%s:%s:site%d" % (key0, b["def"].split("::")[-1], n)
+            if None in lhs or None in rhs:
+                rep.inconc(key0, key, "index expressions are not plain locals: `%s`" % tast.render(asg)[:80])
+            elif lhs == rhs:
+                rep.ok(key0, key, "j[(r, c)] <- array[r, c]")
+            else:
+                rep.violation(key0, key, "`%s`: the matrix entry and the array entry use different index orders - the Jacobian reaches the solver transposed in this dtype branch" % tast.render(asg)[:100], asg.get("sp"))
+    if n < 3:
+        rep.inconc(key0, key0 + ":floor", "only %d array-to-Matrix copy sites found (expected >= 3)" % n)
+
+
 def r_py_method(rep, f):
     """Method::from(&str) on the documented names"""
     key0 = "R-PY-METHOD"
@@ -343,6 +717,10 @@ def run(rep, tier):
     r_py_args(rep, f)
     r_py_sol(rep, f)
     r_py_method(rep, f)
+    rep.rule("R-PY-JAC-COPY", "a Jacobian returned by Python is copied entry (r, c) -> j[(r, c)] in every dtype branch")
+    r_py_jac_copy(rep, f)
+    rep.rule("R-PY-COLOUR", "greedy column grouping: a column is admitted to a group exactly when none of its rows is marked there, and every assignment of a column marks all its rows in that group's table (test-and-mark discipline => no two columns of a group share a row)")
+    r_py_colour(rep, f)
     # the statistics the binding copies are the ones C18 pairs with evaluations (python cfg compiles the same solvers)
     rep.explanation = ("Decides the binding's plumbing tables on the `--features python` build (type-checked without a Python interpreter): option routing, status mapping, array layout, argument passing, "
                        "extrapolating evaluation, method names. NOT decided: numerical equality with the Rust API as an execution through CPython, NumPy dtype conversions, "
